@@ -122,6 +122,18 @@ pub fn judge(cfg: &Cfg, o: &Outcome) -> Vec<(String, String)> {
             }
         }
     }
+    // (3b) the acceptor processes the shutdown command: with a finite timeout (or Forced) the future must resolve at the
+    //      latest when the timeout expires, whatever the workers are doing; an acceptor that — not held at any checkpoint —
+    //      has not even picked the command up after the watchdog (far beyond every finite timeout) cannot have done so
+    if o.acceptor_unresponsive_after_call_ms > 0.0 && timeout_ms.is_finite() && o.acceptor_unresponsive_after_call_ms > timeout_ms + slack_ms {
+        v.push((
+            format!("acceptor-unresponsive-after-call:{:?}", cfg.mode),
+            format!(
+                "shutdown() had been called (timeout {timeout_ms} ms) and the acceptor, released from every checkpoint, did not reach {} within {:.0} ms: the command is not processed while the worker queues are full / the workers busy",
+                o.acceptor_unresponsive_waiting_for, o.acceptor_unresponsive_after_call_ms
+            ),
+        ));
+    }
     // (4) awaiting the handle resolves
     if o.resolved && !o.handle_resolved {
         v.push((
